@@ -341,6 +341,11 @@ class DataFrame(Entity, DataSet):
 
     @units.setter
     def units(self, units):
+        if units is not None and np.ndim(units) == 1 and \
+                len(units) != len(self.column_names):
+            raise ValueError("One unit per column is needed: {} units for {} "
+                             "columns".format(len(units),
+                                              len(self.column_names)))
         units_arr = np.array(units, util.vlen_str_dtype)
         for idx, unit in enumerate(units_arr):
             if unit is not None:
